@@ -12,9 +12,16 @@ PROPS = {
     'C13': {
         'level': 'proof',
         'verus': ['timer'],
+        'technique': 'Verus function contracts + loop invariant against a per-clock recursive spec; batching lemma by induction',
+        'level_text': 'Every function of devices/timer.rs is extracted from /repo on each run and proved (all inputs, all batch sizes, no bound) against the per-clock reference run(s,n): run_cycles == run, TAC write edge rule, reload/IRQ on overflow, DIV = elapsed mod 2^16 bits 8-15, batching lemma run(a+b) == run(a);run(b).',
+        'level_note': 'Trusts Verus/Z3, the extraction rules and the timer spec functions; assumes one batch <= 0xffff0000 clocks.',
+        'design_ref': 'DESIGN.md 5.13',
         'trusted_base': TB_VERUS,
         'assumptions': ['one catch-up batch is at most 0xffff0000 clocks (ClockCycles::as_u32 truncates above 2^32); '
                         'callers deliver at most 4 * 0x30000 clocks per batch',
                         'machine integers are modelled exactly by Verus (overflow checks on)'],
     },
 }
+
+HOOK_COMMITS = []
+NOT_APPLICABLE = {}
